@@ -3,6 +3,7 @@ package main
 import (
 	"fmt"
 	"go/token"
+	"go/types"
 	"sort"
 	"strings"
 
@@ -210,6 +211,43 @@ func (w *World) cursorStoreForward(st *ssa.Store) (bool, string) {
 	return true, fmt.Sprintf("in all %d context(s) the new value lies between the old cursor and the end of the input (LEXBOUNDS)", c[0])
 }
 
+// calledOnReceiverFrom: fn is a method that the method `from` of the same type calls, directly or through such methods,
+// always on its own receiver.
+func (w *World) calledOnReceiverFrom(fn *ssa.Function, from string) bool {
+	seen := map[*ssa.Function]bool{}
+	var reach func(f *ssa.Function) bool
+	reach = func(f *ssa.Function) bool {
+		if seen[f] || f.Blocks == nil || len(f.Params) == 0 {
+			return false
+		}
+		seen[f] = true
+		for _, b := range f.Blocks {
+			for _, in := range b.Instrs {
+				c, ok := in.(*ssa.Call)
+				if !ok || c.Call.IsInvoke() || len(c.Call.Args) == 0 || c.Call.Args[0] != ssa.Value(f.Params[0]) {
+					continue
+				}
+				cal := c.Call.StaticCallee()
+				if cal == nil || cal.Signature.Recv() == nil {
+					continue
+				}
+				if cal == fn || reach(cal) {
+					return true
+				}
+			}
+		}
+		return false
+	}
+	for _, f := range w.ModFns {
+		if f.Name() == from && f.Signature.Recv() != nil && fn.Signature.Recv() != nil && types.Identical(f.Signature.Recv().Type(), fn.Signature.Recv().Type()) {
+			if reach(f) {
+				return true
+			}
+		}
+	}
+	return false
+}
+
 func ruleC13R1(w *World, r *Report) {
 	const rule = "C13/R1"
 	r.rule(rule, "Lexer.pos is stored only in skip/skipN; the position/trivia fields of a token are stored only in (*Lexer).nextToken; the parser's '>>' split rewrites Kind/Raw/Pos of the current token only under Kind == \">>\" with Kind/Raw = \">\" and Pos = Pos + 1", 4)
@@ -266,6 +304,12 @@ func ruleC13R1(w *World, r *Report) {
 					isNext := fn.Signature.Recv() != nil && w.isLexerPtr(fn.Signature.Recv().Type()) && fn.Name() == "nextToken"
 					if isNext {
 						r.ok(rule, construct, w.pos(st.Pos()), "inside (*Lexer).nextToken")
+						continue
+					}
+					// a method of the lexer that nextToken calls on its own receiver (the trivia loop split off into
+					// skipTrivia): still the lexer filling in its own token; the values stored are C13/R4's
+					if fn.Signature.Recv() != nil && w.isLexerPtr(fn.Signature.Recv().Type()) && w.calledOnReceiverFrom(fn, "nextToken") {
+						r.ok(rule, construct, w.pos(st.Pos()), "inside "+funcName(fn)+", which (*Lexer).nextToken calls on its own receiver")
 						continue
 					}
 					// the '>>' split
